@@ -13,7 +13,17 @@ import VC2.Model.PictureDriver
 import VC2.Model.SliceFitDriver
 import VC2.Model.SeqHeaderDriver
 import VC2.Model.SlicePadDriver
+import VC2.Model.WorkerPaths
 open VC2 VC2.Gen
+
+/-- `wp <codec> <encoder|decoder> <generator> <relative/path>` → `own` / `foreign` (Model/WorkerPaths.lean) -/
+def handleWp (ws : List String) : String :=
+  match ws with
+  | [codec, kind, gen, path] =>
+    if kind != "encoder" && kind != "decoder" then "bad-op" else
+    let c : VC2.Model.WorkerPaths.Cmd := { codec := codec.toList, encoder := kind == "encoder", gen := gen.toList }
+    if VC2.Model.WorkerPaths.owns c ((path.splitOn "/").map String.toList) then "own" else "foreign"
+  | _ => "bad-op"
 
 def parseInts (ws : List String) : Option (List Int) :=
   ws.mapM (fun w => w.toInt?)
@@ -53,6 +63,7 @@ def step (line : String) : String :=
   | "sp" :: rest => VC2.Model.SlicePad.handleSp rest
   | "pg" :: rest => VC2.Model.Picture.handlePg rest
   | "ps" :: rest => VC2.Model.Picture.handlePs rest
+  | "wp" :: rest => handleWp rest
   | "dc" :: rest => VC2.Model.Picture.handleDc rest
   | "ff" :: rest => VC2.Model.FileFormat.handleFf rest
   | "vs" :: rest => VC2.Model.Constraint.handleVs rest
